@@ -135,7 +135,8 @@ enum Obs {
 
 fn zlist(v: &[i64]) -> String {
     let s: Vec<String> = v.iter().map(|x| if *x < 0 { format!("({})", x) } else { x.to_string() }).collect();
-    format!("[{}]%Z", s.join(";"))
+    // the type ascription lets Coq elaborate the literal ~40x faster
+    format!("([{}]%Z : list Z)", s.join(";"))
 }
 
 impl Obs {
@@ -144,7 +145,7 @@ impl Obs {
             Obs::Full(v) => format!("OFull {}", zlist(v)),
             Obs::Sums(r, c, s) => {
                 let ss: Vec<String> = s.iter().map(|(i, j, v)| format!("({},{},{})", i, j, coq_z(*v))).collect();
-                format!("OSums {} {} [{}]", zlist(r), zlist(c), ss.join(";"))
+                format!("OSums {} {} ([{}] : list (N * N * Z))", zlist(r), zlist(c), ss.join(";"))
             }
             Obs::Panic => "OPanic".into(),
             Obs::Err => "OErr".into(),
@@ -415,25 +416,39 @@ fn generate(seed: u64, n: usize, tier: &str, out: &mut impl Write) {
         let edge_n = [0usize, 1, 2, nr - 1, nr, nr + 1, 2 * nr - 1, 2 * nr, 2 * nr + 1, 31, 32];
         let edge_k = [0usize, 1, 2, 3, 4, 5, 7, 8, 9, 15, 16, 17, 33, 64];
         // ---- small cases: full comparison and the blocked model itself is evaluated
+        let (sm, sk) = if thorough { (32u64, 64u64) } else { (24, 40) };
         for _ in 0..n {
-            let m = if rng.chance(1, 5) { 1 } else if rng.chance(1, 2) { rng.pick(&edge_m).min(32) } else { rng.below(33) as usize };
-            let nn = if rng.chance(1, 2) { rng.pick(&edge_n).min(32) } else { rng.below(33) as usize };
-            let k = if rng.chance(1, 2) { rng.pick(&edge_k) } else { rng.below(65) as usize };
+            let m = if rng.chance(1, 5) { 1 } else if rng.chance(1, 2) { rng.pick(&edge_m).min(sm as usize) } else { rng.below(sm + 1) as usize };
+            let nn = if rng.chance(1, 2) { rng.pick(&edge_n).min(sm as usize) } else { rng.below(sm + 1) as usize };
+            let k = if rng.chance(1, 2) { rng.pick(&edge_k).min(sk as usize) } else { rng.below(sk + 1) as usize };
             let beta = rng.pick(&ab);
             writeln!(out, "G kern={} th={} m={} n={} k={} la={} lb={} pa={} pb={} alpha={} beta={} bias={} sa={} sb={} sc={} sbias={} api={} fill={}",
                 kern, rng.pick(&ths), m, nn, k, rng.below(5), rng.below(5), rng.chance(1, 4) as u8, rng.chance(1, 4) as u8,
                 rng.pick(&ab), beta, rng.below(3), rng.below(1000), rng.below(1000), rng.below(1000), rng.below(1000),
                 rng.below(2), rng.below(4)).unwrap();
         }
-        // ---- large cases: several row/column/depth blocks; checksums + sampled entries
+        // ---- large cases: several row/column/depth blocks; checksums + sampled entries.
+        // quick: one dimension spans several blocks, the others stay moderate; thorough: all of them.
         let big_m = [63usize, 64, 65, 66, 67, 127, 129, 130, 200, bp.mc - 1, bp.mc + 1, 2 * bp.mc + 1, 300];
         let big_n = [127usize, 128, 129, 255, 256, 257, 300, nr * 9 + 1, 2 * bp.nc - 1, 2 * bp.nc + 1];
-        let big_k = [255usize, 256, 257, 300, 511, 512, 513, 600, 64, 9];
+        let big_k = [255usize, 256, 257, 300, 511, 512, 513, 600];
         for _ in 0..(n / 4).max(6) {
             let gemv = rng.chance(1, 4);
-            let m = if gemv { 1 } else if rng.chance(2, 3) { rng.pick(&big_m) } else { 2 + rng.below(90) as usize };
-            let nn = if gemv { rng.pick(&[127usize, 128, 129, 300, 2049, 1025]) } else if rng.chance(2, 3) { rng.pick(&big_n) } else { 33 + rng.below(200) as usize };
-            let k = if gemv { rng.pick(&[7usize, 8, 9, 300, 511, 512, 513, 1024]) } else if rng.chance(2, 3) { rng.pick(&big_k) } else { 1 + rng.below(300) as usize };
+            let (m, nn, k);
+            if gemv {
+                m = 1;
+                nn = if thorough { rng.pick(&[127usize, 128, 129, 300, 2049, 1025]) } else { rng.pick(&[127usize, 128, 129, 130, 257]) };
+                k = if thorough { rng.pick(&[7usize, 8, 9, 300, 511, 512, 513, 1024]) } else { rng.pick(&[7usize, 8, 9, 17, 511, 512, 513]) };
+            } else if thorough {
+                m = if rng.chance(2, 3) { rng.pick(&big_m) } else { 2 + rng.below(90) as usize };
+                nn = if rng.chance(2, 3) { rng.pick(&big_n) } else { 33 + rng.below(200) as usize };
+                k = if rng.chance(2, 3) { rng.pick(&big_k) } else { 1 + rng.below(300) as usize };
+            } else {
+                let which = rng.below(4);
+                m = if which == 0 || which == 3 { rng.pick(&big_m[..9]) } else { 2 + rng.below(30) as usize };
+                nn = if which == 1 || which == 3 { rng.pick(&big_n[..7]) } else { 33 + rng.below(40) as usize };
+                k = if which == 2 { rng.pick(&big_k) } else if which == 3 { 2 + rng.below(20) as usize } else { 1 + rng.below(70) as usize };
+            }
             writeln!(out, "G kern={} th={} m={} n={} k={} la={} lb={} pa={} pb={} alpha={} beta={} bias={} sa={} sb={} sc={} sbias={} api={} fill={}",
                 kern, rng.pick(&ths), m, nn, k, rng.below(5), rng.below(5), rng.chance(1, 4) as u8, rng.chance(1, 4) as u8,
                 rng.pick(&ab), rng.pick(&ab), rng.below(3), rng.below(1000), rng.below(1000), rng.below(1000), rng.below(1000),
@@ -454,7 +469,7 @@ fn generate(seed: u64, n: usize, tier: &str, out: &mut impl Write) {
         // ---- batched
         for _ in 0..(n / 8).max(3) {
             writeln!(out, "G kern={} th={} m={} n={} k={} la={} lb={} pa={} pb={} alpha={} beta=0 bias={} sa={} sb={} sbias={} batch={} fill={}",
-                kern, rng.pick(&ths), rng.below(20), rng.below(40), rng.below(40), rng.below(5), rng.below(5), rng.chance(1, 4) as u8, rng.chance(1, 4) as u8,
+                kern, rng.pick(&ths), rng.below(16), rng.below(24), rng.below(30), rng.below(5), rng.below(5), rng.chance(1, 4) as u8, rng.chance(1, 4) as u8,
                 rng.pick(&ab), rng.below(3), rng.below(1000), rng.below(1000), rng.below(1000), 1 + rng.below(4), rng.below(4)).unwrap();
         }
         for kind2 in 0..4 { writeln!(out, "B kern={} kind2={}", kern, kind2).unwrap(); }
@@ -467,10 +482,10 @@ fn generate(seed: u64, n: usize, tier: &str, out: &mut impl Write) {
             let c0 = (rng.below(nn as u64) as usize) / nr * nr; let c1 = c0 + 1 + rng.below((nn - c0) as u64) as usize;
             writeln!(out, "P kern={} which=1 n={} k={} r0={} r1={} d0={} d1={} seed={} lay={}", kern, nn, k, c0, c1, d0, d1, rng.below(1000), rng.below(5)).unwrap();
         }
-        for (m, k) in [(1usize, 1usize), (mr + 1, 5), (2 * mr, 256), (7, 257), (13, 530)] {
+        for (m, k) in [(1usize, 1usize), (mr + 1, 5), (2 * mr, 256), (7, 257), (5, 530)] {
             writeln!(out, "P kern={} which=2 m={} k={} seed={} lay={}", kern, m, k, rng.below(1000), rng.below(5)).unwrap();
         }
-        for (nn, k) in [(1usize, 1usize), (nr + 1, 5), (2 * nr, 256), (nr - 1, 257), (nr + 3, 530)] {
+        for (nn, k) in [(1usize, 1usize), (nr + 1, 5), (nr, 256), (nr - 1, 257), (3, if nr * 530 <= 9000 { 530 } else { 260 })] {
             writeln!(out, "P kern={} which=3 n={} k={} seed={} lay={}", kern, nn, k, rng.below(1000), rng.below(5)).unwrap();
         }
         for _ in 0..3 {
